@@ -26,6 +26,10 @@ func VerifC04_ContentRangeCodec() {
 	req := &http.Request{Header: http.Header{}, ContentLength: n}
 	req.Header.Set("Content-Range", ocirequest.RangeString(start, start+n))
 	s, e, err := chunkRange(req)
+	verifObserve("header", req.Header.Get("Content-Range"))
+	verifObserve("start", s)
+	verifObserve("end", e)
+	verifObserve("ok", err == nil)
 	verifAssert(err == nil, "chunk-accepted")
 	verifAssert(err != nil || (s == start && e == start+n), "same-range")
 	verifCover("end")
